@@ -7,9 +7,9 @@ import (
 	"io"
 	"log/slog"
 	"math/big"
-	"net/http"
 	"net/http/httptest"
 	"os"
+	"path/filepath"
 	"sort"
 	"strconv"
 	"strings"
@@ -23,16 +23,20 @@ import (
 	"reduction.dev/reduction-protocol/handlerpb"
 	"reduction.dev/reduction-protocol/jobconfigpb"
 	"reduction.dev/reduction/batching"
+	"reduction.dev/reduction/clocks"
+	"reduction.dev/reduction/config"
 	"reduction.dev/reduction/connectors"
 	"reduction.dev/reduction/connectors/embedded"
 	"reduction.dev/reduction/connectors/httpapi"
 	"reduction.dev/reduction/connectors/kinesis"
 	"reduction.dev/reduction/connectors/kinesis/kinesisfake"
 	"reduction.dev/reduction/connectors/kinesis/kinesispb"
+	"reduction.dev/reduction/jobs"
 	"reduction.dev/reduction/proto"
 	"reduction.dev/reduction/proto/jobpb"
 	"reduction.dev/reduction/proto/snapshotpb"
 	"reduction.dev/reduction/proto/workerpb"
+	"reduction.dev/reduction/storage/locations"
 	"reduction.dev/reduction/util/sliceu"
 	"reduction.dev/reduction/workers/sourcerunner"
 	"verif/harness/lib"
@@ -41,6 +45,9 @@ import (
 func init() { register("C16", propC16) }
 
 const c16Wait = 5 * time.Second
+
+// c16Stuck is a last-resort bound for waits that always end promptly unless the code under test is stuck.
+const c16Stuck = 6 * time.Second
 
 var c16Max = new(big.Int).Lsh(big.NewInt(1), 128)
 
@@ -100,8 +107,6 @@ type kinEnv struct {
 	srv       *httptest.Server
 	client    *awskinesis.Client
 	arn       string
-	probes    atomic.Int64 // number of upcoming ListShards requests answered with an empty list (sync probes)
-	served    atomic.Int64 // ListShards requests answered so far
 	runnerIDs []string
 	splitter  *kinesis.SourceSplitter
 	tick      chan<- time.Time
@@ -123,22 +128,6 @@ func newKinEnv(shards, runners int) (*kinEnv, error) {
 	c16Quiet.Do(func() { slog.SetDefault(slog.New(slog.NewTextHandler(io.Discard, nil))) })
 	e := &kinEnv{done: map[int]bool{}, errCh: make(chan error, 64)}
 	srv, _ := kinesisfake.StartFake()
-	inner := srv.Config.Handler
-	srv.Config.Handler = http.HandlerFunc(func(w http.ResponseWriter, r *http.Request) {
-		if !strings.HasSuffix(r.Header.Get("x-amz-target"), ".ListShards") {
-			inner.ServeHTTP(w, r)
-			return
-		}
-		defer e.served.Add(1)
-		if e.probes.Load() > 0 {
-			e.probes.Add(-1)
-			io.Copy(io.Discard, r.Body)
-			w.Header().Set("Content-Type", "application/json")
-			w.Write([]byte(`{"Shards":[]}`))
-			return
-		}
-		inner.ServeHTTP(w, r)
-	})
 	e.srv = srv
 	e.client = kinesis.NewLocalClient(srv.URL)
 	name := "s"
@@ -170,41 +159,59 @@ func (e *kinEnv) close() {
 	}
 }
 
-// probe makes the real processShardAssignment loop take one discovery tick whose ListShards answer is empty. The
-// unbuffered send is accepted only when the loop is back in its select, i.e. all earlier work is complete.
-func (e *kinEnv) probe() bool {
-	e.probes.Add(1)
-	if !e.sendTick() {
-		e.probes.Add(-1)
-		return false
+// sync returns once the real processShardAssignment loop has received a wake-up signal sent now: the loop is
+// sequential, so everything it was asked to do before is complete at that moment. No request to the fake is involved.
+// The only ways not to return true are a dead loop (its error is on errCh) or a stuck one (last-resort deadline).
+func (e *kinEnv) sync() string {
+	sp := e.splitter
+	sent := make(chan struct{})
+	go func() { sp.VerifWake(); close(sent) }()
+	deadline := time.Now().Add(c16Stuck)
+	for waiting := true; waiting; {
+		select {
+		case <-sent:
+			waiting = false
+		case err := <-e.errCh:
+			return "error " + strings.ReplaceAll(err.Error(), "\n", " ")
+		case <-time.After(c16Stuck):
+			return "stuck"
+		}
 	}
-	return true
+	for sp.VerifWakePending() {
+		select {
+		case err := <-e.errCh:
+			return "error " + strings.ReplaceAll(err.Error(), "\n", " ")
+		default:
+		}
+		if time.Now().After(deadline) {
+			return "stuck"
+		}
+		time.Sleep(10 * time.Microsecond)
+	}
+	return ""
 }
 
-// sendTick hands one tick to the real loop and waits until the ListShards request of that tick has been answered, so
-// that a probe's empty answer can never be consumed by another tick's request.
-func (e *kinEnv) sendTick() bool {
-	before := e.served.Load()
+// sendTick hands one discovery tick to the real loop (accepted when the loop is in its select).
+func (e *kinEnv) sendTick() string {
 	select {
 	case e.tick <- time.Now():
-	case <-time.After(c16Wait):
-		return false
+		return ""
+	case err := <-e.errCh:
+		return "error " + strings.ReplaceAll(err.Error(), "\n", " ")
+	case <-time.After(c16Stuck):
+		return "stuck"
 	}
-	for deadline := time.Now().Add(c16Wait); e.served.Load() == before; {
-		if time.Now().After(deadline) {
-			return false
-		}
-		time.Sleep(20 * time.Microsecond)
-	}
-	return true
 }
 
 // settle waits until everything the splitter loop was asked to do has been done and returns the AssignSplits calls.
+// Two wake-ups: when the second is received, the work triggered by the first (AvailableSplits + assignShards after
+// whatever preceded it) is complete; the second itself then finds nothing to assign.
 func (e *kinEnv) settle() string {
-	if !e.probe() || !e.probe() {
-		return "timeout"
+	for i := 0; i < 2; i++ {
+		if s := e.sync(); s != "" {
+			return s
+		}
 	}
-	// the second probe was accepted: the first one (and whatever preceded it) is complete
 	var outs []string
 	for {
 		select {
@@ -251,7 +258,8 @@ func (e *kinEnv) startOnce() string {
 	calls := make(chan map[string][]*workerpb.SourceSplit, 256)
 	e.calls = calls
 	e.errCh = make(chan error, 64) // per splitter: a closed splitter's cancelled requests are of no interest
-	cfg := kinesis.SourceConfig{StreamARN: e.arn, Client: e.client, ShardDiscoveryInterval: time.Hour}
+	// every splitter gets its own client and connection pool: nothing of a closed splitter can affect the next one
+	cfg := kinesis.SourceConfig{StreamARN: e.arn, Client: kinesis.NewLocalClient(e.srv.URL), ShardDiscoveryInterval: time.Hour}
 	e.splitter = kinesis.NewSourceSplitter(cfg, e.runnerIDs, connectors.SourceSplitterHooks{
 		AssignSplits: func(a map[string][]*workerpb.SourceSplit) { calls <- a },
 	}, e.errCh)
@@ -311,7 +319,29 @@ func (e *kinEnv) check(withLost bool) string {
 	return "ok"
 }
 
+// implKin runs the case; if an output shows noise of the in-process HTTP transport between the AWS client and the
+// fake (a connection closed under the client, a wait that hit its last-resort bound), the whole case is run again on a
+// fresh fake, client and splitter. Behaviour of the splitter is deterministic in the ops, so a defect shows in every
+// attempt, while the noise does not repeat.
 func implKin(c lib.Case, shards, runners int) []string {
+	var out []string
+	for attempt := 0; attempt < 3; attempt++ {
+		out = implKinOnce(c, shards, runners)
+		noisy := false
+		for _, o := range out {
+			if o == "stuck" || strings.HasPrefix(o, "setup-error") || strings.Contains(o, "use of closed network connection") ||
+				strings.Contains(o, "failed to decode response body") || strings.Contains(o, "connection reset") {
+				noisy = true
+			}
+		}
+		if !noisy {
+			break
+		}
+	}
+	return out
+}
+
+func implKinOnce(c lib.Case, shards, runners int) []string {
 	out := make([]string, 0, len(c.Ops))
 	e, err := newKinEnv(shards, runners)
 	defer e.close()
@@ -332,10 +362,10 @@ func implKin(c lib.Case, shards, runners int) []string {
 		case "start", "restore":
 			out = append(out, e.start()+" ; "+e.check(true))
 		case "tick":
-			if e.sendTick() {
+			if st := e.sendTick(); st == "" {
 				out = append(out, e.settle()+" ; "+e.check(true))
 			} else {
-				out = append(out, "timeout")
+				out = append(out, st)
 			}
 		case "finish":
 			var ids []string
@@ -350,8 +380,10 @@ func implKin(c lib.Case, shards, runners int) []string {
 			select {
 			case <-fin:
 				out = append(out, e.settle()+" ; "+e.check(false))
-			case <-time.After(c16Wait):
-				out = append(out, "timeout")
+			case err := <-e.errCh:
+				out = append(out, "error "+strings.ReplaceAll(err.Error(), "\n", " "))
+			case <-time.After(c16Stuck):
+				out = append(out, "stuck")
 			}
 		case "ckpt":
 			e.ckState = e.splitter.Checkpoint()
@@ -1052,6 +1084,287 @@ func genECut(r *lib.Rng) lib.Case {
 }
 
 // ---------------------------------------------------------------------------------------------------------------
+// recovery at the job level: real jobs.Job + snapshots.Store + httpapi splitter; the storage location lets the
+// harness hold the write of a job snapshot, so that a publication can land between assembly.Deploy and
+// sourceSplitter.Start of a redeploy
+
+type c16GateLoc struct {
+	locations.StorageLocation
+	mu      sync.Mutex
+	hold    bool
+	gates   []chan struct{}
+	pending sync.WaitGroup
+}
+
+func (l *c16GateLoc) Write(path string, data io.Reader) (string, error) {
+	if filepath.Ext(path) != ".snapshot" {
+		return l.StorageLocation.Write(path, data)
+	}
+	l.mu.Lock()
+	var gate chan struct{}
+	if l.hold {
+		gate = make(chan struct{})
+		l.gates = append(l.gates, gate)
+		l.pending.Add(1)
+		l.hold = false // holds exactly the next snapshot write
+	}
+	l.mu.Unlock()
+	if gate != nil {
+		<-gate
+		defer l.pending.Done()
+	}
+	return l.StorageLocation.Write(path, data)
+}
+
+func (l *c16GateLoc) release() {
+	l.mu.Lock()
+	gates := l.gates
+	l.gates = nil
+	l.mu.Unlock()
+	for _, g := range gates {
+		close(g)
+	}
+	l.pending.Wait()
+}
+
+type jobRunner struct {
+	proto.UnimplementedSourceRunner
+	assigned    chan []*workerpb.SourceSplit
+	checkpoints chan uint64
+}
+
+func (r *jobRunner) ID() string   { return "sr1" }
+func (r *jobRunner) Host() string { return "sr1-host" }
+func (r *jobRunner) Deploy(context.Context, *workerpb.DeploySourceRunnerRequest) error {
+	return nil
+}
+func (r *jobRunner) AssignSplits(ctx context.Context, splits []*workerpb.SourceSplit) error {
+	r.assigned <- splits
+	return nil
+}
+func (r *jobRunner) StartCheckpoint(ctx context.Context, id uint64) error {
+	r.checkpoints <- id
+	return nil
+}
+
+type jobOperator struct {
+	proto.UnimplementedOperator
+	id       string
+	onDeploy func()
+	deployed chan *workerpb.DeployOperatorRequest
+}
+
+func (o *jobOperator) ID() string   { return o.id }
+func (o *jobOperator) Host() string { return o.id + "-host" }
+func (o *jobOperator) Deploy(ctx context.Context, req *workerpb.DeployOperatorRequest) error {
+	if o.onDeploy != nil {
+		o.onDeploy()
+	}
+	o.deployed <- req
+	return nil
+}
+func (o *jobOperator) UpdateRetainedCheckpoints(ctx context.Context, ids []uint64) error { return nil }
+func (o *jobOperator) NeedsTable(ctx context.Context, uri string) (bool, error)          { return false, nil }
+
+func implJob(c lib.Case) []string {
+	c16Quiet.Do(func() { slog.SetDefault(slog.New(slog.NewTextHandler(io.Discard, nil))) })
+	out := make([]string, 0, len(c.Ops))
+	dir, err := os.MkdirTemp("", "c16job")
+	if err != nil {
+		return []string{"setup-error"}
+	}
+	defer os.RemoveAll(dir)
+	loc := &c16GateLoc{StorageLocation: locations.NewLocalDirectory(filepath.Join(dir, "store"))}
+	clock := clocks.NewFrozenClock()
+	runner := &jobRunner{assigned: make(chan []*workerpb.SourceSplit, 16), checkpoints: make(chan uint64, 16)}
+	var opMu sync.Mutex
+	ops := map[string]*jobOperator{}
+	errCh := make(chan error, 16)
+	job, err := jobs.New(&jobs.NewParams{
+		JobConfig: &config.Config{
+			WorkerCount:            1,
+			KeyGroupCount:          8,
+			WorkingStorageLocation: filepath.Join(dir, "work"),
+			Sources:                []connectors.SourceConfig{httpapi.SourceConfig{Addr: "http://127.0.0.1:1", Topics: []string{"events"}}},
+		},
+		Clock:   clock,
+		Store:   loc,
+		ErrChan: errCh,
+		Logger:  slog.New(slog.NewTextHandler(io.Discard, nil)),
+		OperatorFactory: func(senderID string, node *jobpb.NodeIdentity) proto.Operator {
+			opMu.Lock()
+			defer opMu.Unlock()
+			return ops[node.Id]
+		},
+		SourceRunnerFactory: func(node *jobpb.NodeIdentity) proto.SourceRunner { return runner },
+	})
+	if err != nil {
+		return []string{"setup-error " + err.Error()}
+	}
+	positions := map[uint64]uint64{}
+	var newest uint64
+	opN := 0
+	waitCurrent := func(id uint64) bool {
+		for deadline := time.Now().Add(c16Stuck); job.VerifCurrentCheckpointIDC16() < id; {
+			if time.Now().After(deadline) {
+				return false
+			}
+			time.Sleep(50 * time.Microsecond)
+		}
+		return true
+	}
+	// deploy registers the next operator and reports what the new assembly was started with
+	deploy := func(race bool) string {
+		opN++
+		o := &jobOperator{id: fmt.Sprintf("op%d", opN), deployed: make(chan *workerpb.DeployOperatorRequest, 4)}
+		if race {
+			// the snapshot write that was in flight completes while the replacement operator is being deployed
+			o.onDeploy = func() { loc.release(); waitCurrent(newest) }
+		}
+		opMu.Lock()
+		ops[o.id] = o
+		opMu.Unlock()
+		job.HandleRegisterOperator(&jobpb.NodeIdentity{Id: o.id, Host: o.id + "-host"})
+		if opN == 1 {
+			job.HandleRegisterSourceRunner(&jobpb.NodeIdentity{Id: "sr1", Host: "sr1-host"})
+		}
+		var req *workerpb.DeployOperatorRequest
+		select {
+		case req = <-o.deployed:
+		case err := <-errCh:
+			return "error " + err.Error()
+		case <-time.After(c16Stuck):
+			return "stuck-deploy"
+		}
+		var splits []*workerpb.SourceSplit
+		select {
+		case splits = <-runner.assigned:
+		case err := <-errCh:
+			return "error " + err.Error()
+		case <-time.After(c16Stuck):
+			return "stuck-assign"
+		}
+		dep, cur, verdict := "-", "-", "ok"
+		var restored uint64
+		if len(req.Checkpoints) > 0 {
+			restored = req.Checkpoints[0].CheckpointId
+			dep = strconv.FormatUint(restored, 10)
+		}
+		if len(splits) != 1 {
+			return fmt.Sprintf("dep %s | %d splits", dep, len(splits))
+		}
+		if len(splits[0].Cursor) == 8 {
+			var p uint64
+			for _, b := range splits[0].Cursor {
+				p = p<<8 | uint64(b)
+			}
+			cur = strconv.FormatUint(p, 10)
+			// the statement of job_resumes_restored_cut on the implementation
+			if restored == 0 || positions[restored] != p {
+				verdict = fmt.Sprintf("mismatch: operators restore checkpoint %s (position %d), split resumes from %d", dep, positions[restored], p)
+			}
+		} else if restored != 0 {
+			verdict = "mismatch: operators restore a checkpoint, split resumes from the start"
+		}
+		return fmt.Sprintf("dep %s | %s@%s ; %s", dep, splits[0].SplitId, cur, verdict)
+	}
+	for _, op := range c.Ops {
+		f := strings.Fields(op)
+		switch {
+		case f[0] == "deploy":
+			out = append(out, deploy(false))
+		case f[0] == "fail":
+			cur := fmt.Sprintf("op%d", opN)
+			job.HandleDeregisterOperator(&jobpb.NodeIdentity{Id: cur, Host: cur + "-host"})
+			out = append(out, deploy(len(f) > 1 && f[1] == "race"))
+		case f[0] == "release":
+			loc.release()
+			if waitCurrent(newest) {
+				out = append(out, "ok")
+			} else {
+				out = append(out, "stuck-release")
+			}
+		case f[0] == "ckpt":
+			pos, _ := strconv.ParseUint(f[1], 10, 64)
+			hold := len(f) > 2 && f[2] == "hold"
+			// fire the job's checkpoint ticker (registered once the job runs) until the runner is asked to checkpoint
+			var id uint64
+			for deadline := time.Now().Add(c16Stuck); id == 0 && time.Now().Before(deadline); {
+				func() {
+					defer func() { recover() }()
+					clock.TickEvery("checkpointing")
+				}()
+				select {
+				case id = <-runner.checkpoints:
+				case <-time.After(2 * time.Millisecond):
+				}
+			}
+			if id == 0 {
+				out = append(out, "stuck-checkpoint")
+				continue
+			}
+			positions[id] = pos
+			newest = id
+			if hold {
+				loc.mu.Lock()
+				loc.hold = true
+				loc.mu.Unlock()
+			}
+			cb := make([]byte, 8)
+			for i := 0; i < 8; i++ {
+				cb[7-i] = byte(pos >> (8 * i))
+			}
+			e1 := job.HandleSourceRunnerCheckpointComplete(context.Background(), &jobpb.SourceRunnerCheckpointCompleteRequest{SourceRunnerId: "sr1", CheckpointId: id, SplitStates: [][]byte{cb}})
+			e2 := job.HandleOperatorCheckpointComplete(context.Background(), &snapshotpb.OperatorCheckpoint{OperatorId: fmt.Sprintf("op%d", opN), CheckpointId: id, KeyGroupRange: &snapshotpb.KeyGroupRange{Start: 0, End: 8}})
+			switch {
+			case e1 != nil || e2 != nil:
+				out = append(out, fmt.Sprintf("error %v %v", e1, e2))
+			case hold:
+				out = append(out, fmt.Sprintf("ck %d held", id))
+			case waitCurrent(id):
+				out = append(out, fmt.Sprintf("ck %d", id))
+			default:
+				out = append(out, "stuck-publish")
+			}
+		default:
+			out = append(out, "bad-op")
+		}
+	}
+	loc.release()
+	return out
+}
+
+func genJob(r *lib.Rng) lib.Case {
+	c := lib.Case{Header: "M C16 job", Tags: []string{"job"}, Ops: []string{"deploy"}}
+	pos := 0
+	held := false
+	for n := r.Range(3, 9); n > 0; n-- {
+		switch k := r.Intn(10); {
+		case k < 5:
+			pos += r.Range(1, 9)
+			if !held && r.Chance(1, 2) {
+				c.Ops = append(c.Ops, fmt.Sprintf("ckpt %d hold", pos))
+				held = true
+			} else {
+				c.Ops = append(c.Ops, fmt.Sprintf("ckpt %d", pos))
+			}
+		case k < 6:
+			c.Ops = append(c.Ops, "release")
+			held = false
+		case k < 8:
+			c.Ops = append(c.Ops, "fail race")
+			if held {
+				c.Tags = append(c.Tags, "job-race")
+			}
+			held = false
+		default:
+			c.Ops = append(c.Ops, "fail")
+		}
+	}
+	return c
+}
+
+// ---------------------------------------------------------------------------------------------------------------
 // Partition, embedded and httpapi splitters, uniformlyAssignShard
 
 func checkPartitionExact(n, groups int) string {
@@ -1569,7 +1882,7 @@ func propC16() *lib.Prop {
 	return &lib.Prop{
 		ID:   "C16",
 		Corr: "Model/Splits.lean ↔ kinesis.SourceSplitter+SplitTracker (against kinesisfake), uniformlyAssignShard, embedded/httpapi splitters, sliceu.Partition, SourceRunner.processEvents (barrier cut with a scripted reader)",
-		Rule: "cases: kin = op sequences (split/merge of the stream, discovery ticks, finish notifications in any order, checkpoint, restore) on the real Kinesis splitter; cut = assign/read/barrier scripts (incl. checkpoint requests arriving inside a read) on the real SourceRunner with a scripted reader; ecut = the real embedded SourceReader free-running under the real SourceRunner with barriers at random moments (only the statement of cursor_matches_cut is observed); misc = Partition/embedded/httpapi/uniformlyAssignShard blocks. non-trivial = kin case with a restore from a checkpoint after the stream was resharded, cut case with a barrier after a read, or misc block",
+		Rule: "cases: kin = op sequences (split/merge of the stream, discovery ticks, finish notifications in any order, checkpoint, restore) on the real Kinesis splitter; cut = assign/read/barrier scripts (incl. checkpoint requests arriving inside a read) on the real SourceRunner with a scripted reader; job = real jobs.Job + snapshots.Store + httpapi splitter with a storage location that holds a snapshot write until the replacement operator is being deployed (checkpoint id the operators restore vs position the split resumes from); ecut = the real embedded SourceReader free-running under the real SourceRunner with barriers at random moments (only the statement of cursor_matches_cut is observed); misc = Partition/embedded/httpapi/uniformlyAssignShard blocks. non-trivial = kin case with a restore from a checkpoint after the stream was resharded, cut case with a barrier after a read, or misc block",
 		NumCases: func(tier string) int {
 			if tier == "thorough" {
 				return 8000
@@ -1587,6 +1900,9 @@ func propC16() *lib.Prop {
 			// D16c (open): withheld shards below LastAssigned are lost by a restore
 			cs = append(cs, lib.Case{Header: "M C16 kin 2 2", Tags: []string{"kin", "witness-D16c", "kin-restore-lineage"},
 				Ops: []string{"start", "split 0 " + mid0, "split 1 " + mid1, "tick", "finish 1", "ckpt 0=7,4=9", "split 2 1000", "restore", "finish 0", "tick", "chk"}})
+			// a publication lands between assembly.Deploy and sourceSplitter.Start of the redeploy
+			cs = append(cs, lib.Case{Header: "M C16 job", Tags: []string{"job", "job-race"},
+				Ops: []string{"deploy", "ckpt 10", "ckpt 20 hold", "fail race", "ckpt 33", "fail", "ckpt 40 hold", "fail", "release", "fail"}})
 			cs = append(cs, lib.Case{Header: "M C16 cut 2 2 2", Tags: []string{"cut"},
 				Ops: []string{"barrier 1", "assign 0@0,1@5", "read 0,1,0", "barrier 2", "readbar1 3 1,1,0", "readbar2 4 0,0", "assign 2@0,0@9", "read 2,77,0", "barrier 5", "end"}})
 			grid := lib.Case{Header: "M C16 misc", Tags: []string{"misc", "grid"}}
@@ -1613,8 +1929,10 @@ func propC16() *lib.Prop {
 				return genKin(r, tier)
 			case k < 16:
 				return genCut(r, tier)
-			case k < 18:
+			case k < 17:
 				return genECut(r)
+			case k < 18:
+				return genJob(r)
 			default:
 				return genMisc(r)
 			}
@@ -1632,6 +1950,8 @@ func propC16() *lib.Prop {
 				return implKin(c, a[0], a[1])
 			case mode == "cut" && len(a) == 3:
 				return implCut(c, a[0], a[1], a[2])
+			case mode == "job":
+				return implJob(c)
 			case mode == "ecut" && len(a) == 5:
 				return implECut(c, a[0], a[1], a[2], a[3], a[4])
 			default:
@@ -1650,6 +1970,13 @@ func propC16() *lib.Prop {
 				return false
 			case "ecut":
 				return true
+			case "job":
+				for _, t := range c.Tags {
+					if t == "job-race" {
+						return true
+					}
+				}
+				return false
 			case "cut":
 				read := false
 				for _, o := range c.Ops {
